@@ -463,13 +463,16 @@ pub fn run(tier: &str) -> Report {
     rep.states = seeds.len() as u64;
     // ---------- round trips
     // bits 1..16 = the five --no-* flags, 32 = --show-instr-offsets
-    let opt_sets: Vec<u32> = if thorough { (0..64).collect() } else { vec![0, 1, 2, 4, 8, 16, 31, 32, 33] };
-    let widths: Vec<usize> = if thorough { vec![99, 1, 20, 40, 79, 200] } else { vec![99, 20] };
+    let opt_sets: Vec<u32> = if thorough { (0..64).collect() } else { vec![0, 1, 2, 4, 8, 16, 31, 32] };
+    // quick: every option set at the default width; width 20 under the default options and under --show-instr-offsets on every 4th seed
+    let widths: Vec<usize> = if thorough { vec![99, 1, 20, 40, 79, 200] } else { vec![99] };
     let results = par_map(&seeds, Some(deadline), |i, s| {
         // bundled files and every 50th generated seed get all widths 1..=200 (thorough) on the default options
         // seeds of the all-games hosts: default and all-off options at the default width (quick tier)
         let light = !thorough && (s.host.contains("-th") || s.host.contains("-alcostg"));
         let o = if light { check_seed_ex(s, &[0, 31, 32], &[99], false) } else { check_seed_ex(s, &opt_sets, &widths, thorough || i % 8 == 0) };
+        let narrow = if !thorough && !light && i % 4 == 0 { Some(check_seed_ex(s, &[0, 32], &[20], false)) } else { None };
+        let o = match narrow { Some(n) => CaseOut { round_trips: o.round_trips + n.round_trips, exempt: o.exempt + n.exempt, failures: o.failures.into_iter().chain(n.failures).collect(), nontrivial: o.nontrivial || n.nontrivial, classes: o.classes.into_iter().chain(n.classes).collect() }, None => o };
         let extra = if s.source.is_none() || i % 50 == 0 { let ws: Vec<usize> = if thorough { (1..=200).collect() } else { vec![1, 2, 3, 10, 40, 79, 80, 100, 200] }; Some(check_seed(s, &[0], &ws)) } else { None };
         (o, extra)
     });
